@@ -98,6 +98,48 @@ Theorem C09_transfer_constructor_total : forall fn m o i, m <> Mail -> start_tra
 Proof. exact start_transfer_ok. Qed.
 Print Assumptions C09_transfer_constructor_total.
 
+(* Fault dimension 2: a callee of the request-port thread raises ANY exception (RuntimeError of
+   Thread.start, MemoryError, KeyError, a custom class, OSError, ...) at the log statement /
+   socket_address_to_str, in prepare_context or can_handle of the i-th handler, at the handle lookup
+   or at Thread.start.  If control reaches that station, the catch-all logs the exception and nothing
+   else happens for this datagram (no reply attempt, no transfer); if it does not, nothing changes. *)
+Theorem C09_request_port_faulted : forall st e sendable hs d,
+  serve_one_f (Some (st, e)) sendable hs d =
+  if reaches st hs d then [ALogExc] else serve_one_f None sendable hs d.
+Proof. exact request_port_faulted. Qed.
+Print Assumptions C09_request_port_faulted.
+
+(* the log statement is reached for every datagram; Thread.start and the handle lookup exactly when a
+   transfer would be started *)
+Theorem C09_fault_reach : forall hs d,
+  reaches SLog hs d = true /\
+  (forall st, st = SThreadStart \/ st = SHandleLookup ->
+     reaches st hs d = existsb (fun a => match a with AStart _ _ _ _ => true | _ => false end) (port_spec hs d)).
+Proof. intros hs d. split; [apply reaches_log|intros st H; apply reaches_start_iff; exact H]. Qed.
+Print Assumptions C09_fault_reach.
+
+(* the serve loop survives every Exception: each datagram that arrives gets the reaction it would get
+   alone, whichever faults were injected before it *)
+Theorem C09_serve_loop_survives : forall hs reqs,
+  run_loop_f catch_all hs reqs =
+  map (fun r => serve_one_f (fst (fst r)) (snd (fst r)) hs (firstn MAX_REQUEST_PACKET_SIZE (snd r))) reqs.
+Proof. exact run_loop_f_total. Qed.
+Print Assumptions C09_serve_loop_survives.
+
+(* a loop that catches only OSError and ValueError is left by the RuntimeError of Thread.start *)
+Theorem C09_serve_loop_narrow_catch_refuted :
+  exists hs reqs,
+    (length (run_loop_f only_oserror_valueerror hs reqs) < length reqs)%nat /\
+    length (run_loop_f catch_all hs reqs) = length reqs.
+Proof. exact run_loop_narrow_catch_refuted. Qed.
+Print Assumptions C09_serve_loop_narrow_catch_refuted.
+
+Theorem C09_port_holds_faulted : forall st e sendable hs d,
+  port_holds_f (Some (st, e)) sendable hs d (serve_one_f (Some (st, e)) sendable hs d) =
+  if reaches st hs d then [] else port_holds sendable hs d (serve_one sendable hs d).
+Proof. exact port_holds_f_model. Qed.
+Print Assumptions C09_port_holds_faulted.
+
 (* non-vacuity: a mixed-case request with a duplicated option name is decoded and handed to the
    second handler; a request without the final NUL is refused *)
 Example C09_port_nonvacuous :
